@@ -131,7 +131,14 @@ pub fn gen_ins(t: &mut Tape, max_args: usize, max_pieces: usize) -> Ins {
         ins.output = Some(n);
     }
     if c {
-        ins.command = Some(name(t, false));
+        let mut cmd = name(t, false);
+        if o && t.chance(1, 12) {
+            // after `output =` the command token runs to the next space: it may hold an '=' of its own
+            let at = t.below(cmd.chars().count() + 1);
+            let byte = cmd.char_indices().nth(at).map(|(i, _)| i).unwrap_or(cmd.len());
+            cmd.insert(byte, '=');
+        }
+        ins.command = Some(cmd);
         let n = t.len(max_args);
         for _ in 0..n {
             ins.args.push(hazard_string(t, max_pieces));
